@@ -40,6 +40,9 @@ TREES = [
     ('box', ['box', [seq('list', 4)]]),
     ('box-kw', ['box', [seq('list', 4)], [['tag', seq('tuple', 3, 50)]]]),
     ('box-2args', ['list', [['box', [L('1')], [['tag', seq('list', 5, 60)]]]]]),
+    ('falsy-later', ['list', [L('1'), L('2'), L('0'), L('3'), L('None'), L("''")]]),
+    ('falsy-tuple', ['tuple', [['list', [L('1')]], ['list', []], ['list', [L('2')]], L('False')]]),
+    ('falsy-set', ['set', [L('5'), L('0'), L('7')]]),
     ('set-unordered', ['set', [L('8'), L('1'), L('16'), L('3'), L('32')]]),
     ('fset-unordered', ['frozenset', [L('8'), L('1'), L('16'), L('3')]]),
     ('set-strs', ['set', [L("'pear'"), L("'apple'"), L("'fig'"), L("'kiwi'")]]),
